@@ -161,9 +161,13 @@ type GenOpts struct {
 	AllKinds     bool // root message gets one singular field of every scalar kind
 	NoMaps       bool
 	NoRepeated   bool
-	BigNumbers   bool // allow field numbers up to 70000
-	OnlyStrIntKV bool // restrict map keys to string/int32/int64 (the subset generic path lookup can address)
+	BigNumbers   bool     // allow field numbers up to 70000
+	OnlyStrIntKV bool     // restrict map keys to string/int32/int64 (the subset generic path lookup can address)
+	KeyKinds     []string // allowed map key kinds (default: every legal kind)
 }
+
+// SupportedKeyKinds is the map-key subset the properties name as supported: map<int*|uint*|string, ...>.
+var SupportedKeyKinds = []string{"string", "int32", "int64", "uint32", "uint64", "string"}
 
 var fieldNumClasses = []int32{1, 2, 3, 7, 14, 15, 16, 17, 100, 127, 128, 2047, 2048, 2049}
 
@@ -285,7 +289,9 @@ func GenSchema(t *rapid.T, o GenOpts) Schema {
 				f.Label = "repeated"
 			case lc >= 8 && !o.NoMaps:
 				f.Label = "map"
-				if o.OnlyStrIntKV {
+				if len(o.KeyKinds) > 0 {
+					f.KeyKind = o.KeyKinds[rapid.IntRange(0, len(o.KeyKinds)-1).Draw(t, "keyKind")]
+				} else if o.OnlyStrIntKV {
 					f.KeyKind = []string{"string", "int32", "int64", "string"}[rapid.IntRange(0, 3).Draw(t, "keyKind")]
 				} else {
 					f.KeyKind = MapKeyKinds[rapid.IntRange(0, len(MapKeyKinds)-1).Draw(t, "keyKind")]
